@@ -3,6 +3,7 @@
    transition system; [run init l] ranges over every interleaving of record arrivals, reconfigure
    requests (Open succeeding or failing), cancellations, loop steps, graceful close and kill). *)
 From Verif Require Import Base.CaseCheck Swap.Swap Swap.SwapProofs Swap.SwapThms Swap.Check Swap.CheckProofs.
+From Verif Require Import Swap.Flag Swap.FlagProofs.
 
 Theorem C13_one_generation_per_record : forall l s, run init l = Some s ->
   NoDup (map fst (out s)) /\
@@ -84,6 +85,71 @@ Print Assumptions C13_model_satisfies_monitor.
 Theorem C13_lockstep_is_a_schedule : forall es, exists l, run init l = Some (run_env es).
 Proof. exact lockstep_is_a_schedule. Qed.
 Print Assumptions C13_lockstep_is_a_schedule.
+
+(* ---- service side (coq/Swap/Flag.v): Instance.running over every history of Start (buildable or
+   not), ReconfigureProcessor (swap works / new runnable cannot be built: undispensable plugin,
+   malformed sdk.egress.* setting, invalid condition / new runnable refuses to open), StopAndWait,
+   Update, Delete, MakeRunnableProcessor and record flow ---- *)
+Theorem C13_service_running_flag_iff_live_node : forall ops,
+  flag (fend ops) = negb (fnone (node (fend ops))) /\
+  (there (fend ops) = false -> node (fend ops) = None) /\
+  (forall g, node (fend ops) = Some g -> g < nbuilt (fend ops)).
+Proof. exact flag_iff_live_node. Qed.
+Print Assumptions C13_service_running_flag_iff_live_node.
+
+Theorem C13_service_failed_reconfigure_keeps_node_and_guards : forall ops o g0,
+  node (fend ops) = Some g0 -> o <> OOk ->
+  let s' := fst (fstep (fend ops) (FReconf o)) in
+  snd (fstep (fend ops) (FReconf o)) = RErr /\
+  node s' = Some g0 /\ flag s' = true /\ there s' = true /\
+  snd (fstep s' FUpdate) = RRunning /\ snd (fstep s' FDelete) = RRunning /\ snd (fstep s' FMake) = RRunning /\
+  snd (fstep s' FEmit) = RStamp (Some g0).
+Proof. exact failed_reconfigure_keeps_node_and_guards. Qed.
+Print Assumptions C13_service_failed_reconfigure_keeps_node_and_guards.
+
+Theorem C13_service_successful_reconfigure_keeps_flag : forall ops g0,
+  node (fend ops) = Some g0 ->
+  let s' := fst (fstep (fend ops) (FReconf OOk)) in
+  exists g, snd (fstep (fend ops) (FReconf OOk)) = RGen g /\ g <> g0 /\
+  node s' = Some g /\ flag s' = true /\
+  snd (fstep s' FUpdate) = RRunning /\ snd (fstep s' FDelete) = RRunning /\ snd (fstep s' FMake) = RRunning.
+Proof. exact successful_reconfigure_keeps_flag. Qed.
+Print Assumptions C13_service_successful_reconfigure_keeps_flag.
+
+Theorem C13_service_stop_releases_flag : forall ops g0,
+  node (fend ops) = Some g0 ->
+  let s' := fst (fstep (fend ops) FStop) in
+  snd (fstep (fend ops) FStop) = RNil /\ node s' = None /\ flag s' = false /\
+  snd (fstep s' FUpdate) = RNil /\
+  exists g, snd (fstep s' (FStart None)) = RGen g /\ g <> g0.
+Proof. exact stop_releases_flag. Qed.
+Print Assumptions C13_service_stop_releases_flag.
+
+Theorem C13_service_failed_start_releases_flag : forall ops k,
+  node (fend ops) = None -> there (fend ops) = true ->
+  let s' := fst (fstep (fend ops) (FStart (Some k))) in
+  snd (fstep (fend ops) (FStart (Some k))) = RErr /\ flag s' = false /\ node s' = None /\
+  snd (fstep s' FUpdate) = RNil.
+Proof. exact failed_start_releases_flag. Qed.
+Print Assumptions C13_service_failed_start_releases_flag.
+
+(* every history of the service model is accepted by the monitor that judges the real services *)
+Theorem C13_service_model_satisfies_monitor : forall ops, fmon ops (frun ops) = true.
+Proof. exact service_model_satisfies_monitor. Qed.
+Print Assumptions C13_service_model_satisfies_monitor.
+
+(* non-vacuity of the service theorems: start, a failed build, a failed open, a swap, the guards, stop *)
+Example C13_service_nonvacuous :
+  frun [FStart (Some BPlugin); FUpdate; FStart None; FEmit; FReconf (OBuildFail BCond); FUpdate; FDelete; FMake;
+        FReconf OOpenFail; FEmit; FReconf OOk; FEmit; FUpdate; FStop; FUpdate; FMake; FStart None; FEmit] =
+  [RErr; RNil; RGen 0; RStamp (Some 0); RErr; RRunning; RRunning; RRunning;
+   RErr; RStamp (Some 0); RGen 3; RStamp (Some 3); RRunning; RNil; RNil; RNil; RGen 5; RStamp (Some 5)].
+Proof. vm_compute. reflexivity. Qed.
+
+(* the monitor is not trivially true: a guard that opens after a failed build is rejected *)
+Example C13_service_monitor_rejects_cleared_flag :
+  fmon [FStart None; FReconf (OBuildFail BPlugin); FUpdate] [RGen 0; RErr; RNil] = false.
+Proof. vm_compute. reflexivity. Qed.
 
 (* non-vacuity: a run with a successful swap mid-stream, a refused concurrent request, a failed
    Open and a cancelled (withdrawn) request; two generations stamp records, in order *)
